@@ -17,10 +17,10 @@ from vf import detloop, env, xs
 
 YMAX = 2
 STATES = 0  # index into STATE_SETS
-STATE_SETS = ((1, 0, 0), (0, 1, 2), (1, 1, 0), (2, 0, 1), (1, 1, 1), (1, 2, 0), (0, 0, 1))
+STATE_SETS = ((1, 0, 0), (0, 1, 2), (1, 1, 0), (2, 0, 1), (1, 1, 1), (1, 2, 0), (0, 0, 1), (0, 1, 0))
 RCONLY = 0
 YUMAX = 2
-EXPRS = ("Muss [1] U [501] Soll [2][901] Kann [3] O [1]", "Muss ([1] O [2]) U [3][902] Soll [3] X [1][901]", "X [1][901] U ([2] O [3]) U [502]")
+EXPRS = ("Muss [1] U [501] Soll [2][901] Kann [3] O [1]", "Muss ([1] O [2]) U [3][902] Soll [3] X [1][901]", "X [1][901] U ([2] O [3]) U [502]", "Muss [1] Soll [2] Kann [3]")
 EXPR = 0
 FIXY1 = -1
 FIX3 = (0, 0, 0)
